@@ -658,8 +658,14 @@ class Hugr(Mapping[Node, NodeData], Generic[OpVarCov]):
         """
         mapping: dict[Node, Node] = {}
 
-        for node, node_data in hugr.nodes():
-            # relies on parents being inserted before any children
+        # Walk the hierarchy from the root so that parents are inserted before
+        # their children and children keep their order, whatever their indices
+        # are (indices of deleted nodes get reused).
+        to_insert = [hugr.root]
+        while to_insert:
+            node = to_insert.pop()
+            node_data = hugr[node]
+            to_insert.extend(reversed(node_data.children))
             try:
                 node_parent = mapping[node_data.parent] if node_data.parent else parent
             except KeyError as e:
